@@ -37,6 +37,7 @@ type HarnessResult struct {
 	SolverUnk   int            `json:"solver_unknown"`
 	SolverErr   int            `json:"solver_errors"`
 	SolverS     float64        `json:"solver_s"`
+	SolverFallbacks int        `json:"solver_oneshot_fallbacks"`
 }
 
 type RunResult struct {
@@ -57,6 +58,7 @@ func main() {
 	solver := flag.String("solver", "z3-new", "solver binary")
 	logic := flag.String("logic", "QF_BV", "SMT-LIB logic (QF_BV is fastest; ALL for floating point / uninterpreted functions)")
 	timeout := flag.Int("solver-timeout-ms", 20000, "per-query timeout")
+	fallback := flag.Int("fallback-ms", 0, "on an unknown answer of the incremental solver, re-decide the query with a one-shot solver run of this many milliseconds (0 = off)")
 	budget := flag.Int("budget", 300000, "SSA steps per path")
 	maxViol := flag.Int("max-violations", 50, "violations kept per harness")
 	deadline := flag.Duration("deadline", 0, "wall-clock limit per harness (0 = none)")
@@ -113,7 +115,7 @@ func main() {
 	prog.Build()
 	eng := &Engine{prog: prog, fset: fset, pkgs: map[string]*ssa.Package{}, infos: map[*ssa.Function]*fnInfo{},
 		globals: map[*ssa.Global]*Cell{}, initDone: map[*ssa.Package]bool{}, solverBin: *solver, logic: *logic, solverTimeoutMs: *timeout,
-		smtLog: *smtlog, verbose: *verbose}
+		smtLog: *smtlog, verbose: *verbose, fallbackMs: *fallback}
 	for _, p := range prog.AllPackages() {
 		eng.pkgs[p.Pkg.Path()] = p
 		if strings.HasSuffix(p.Pkg.Path(), "/internal/vmodels") {
@@ -157,7 +159,7 @@ func main() {
 		hr := HarnessResult{Harness: name, Stats: ex.stats, Violations: ex.violations, Aborts: ex.abortMsgs, Tags: ex.tags,
 			Samples: ex.samples, SampleVecs: ex.sampleVecs, WallS: time.Since(th).Seconds(), TimedOut: ex.timedOut != 0,
 			SolverQ: ex.solverStats.queries, SolverSat: ex.solverStats.sat, SolverUnsat: ex.solverStats.unsat,
-			SolverUnk: ex.solverStats.unknown, SolverErr: ex.solverStats.errors, SolverS: ex.solverStats.time.Seconds()}
+			SolverUnk: ex.solverStats.unknown, SolverErr: ex.solverStats.errors, SolverS: ex.solverStats.time.Seconds(), SolverFallbacks: ex.solverStats.fallbacks}
 		for f := range ex.funcs {
 			hr.Functions = append(hr.Functions, f)
 		}
